@@ -412,6 +412,7 @@ def run_handler(ts: FileTypestate, model: PyModel, method: str, rule: str, label
     fi = model.func(qual)
     ts.interp.ctx_stack.append((fi.module, fi.cls))
     try:
+        ts.interp.steps = 0
         res = ts.interp.call_func(qual, [root, ctx], {}, st)
     finally:
         ts.interp.ctx_stack.pop()
